@@ -420,6 +420,22 @@ func (e *Env) evalSelector(n *ast.SelectorExpr) Val {
 			}
 		}
 	}
+	if id, ok := n.X.(*ast.Ident); ok && e.fn != nil {
+		if _, isVar := e.vars[id.Name]; !isVar {
+			if a := e.localAlloc(id.Name); a != nil {
+				if _, isStruct := derefType(a.Type()).Underlying().(*types.Struct); isStruct {
+					ref, t, gs := e.evalAddr(n)
+					if e.err != nil {
+						return boolVal("false")
+					}
+					if gs != "" {
+						return e.loadGhost(ref, gs, n.Sel.Name)
+					}
+					return e.r.load(e.st, ref, t, n.Sel.Name)
+				}
+			}
+		}
+	}
 	x := e.eval(n.X)
 	if e.err != nil {
 		return boolVal("false")
@@ -903,6 +919,16 @@ func (e *Env) evalCall(n *ast.CallExpr) Val {
 			// terms mentioning the bound variable remain; they are dropped
 			if strings.HasPrefix(d, "(= ") && strings.Contains(strings.SplitN(d, " ", 3)[1], "!") && !strings.HasPrefix(strings.SplitN(d, " ", 3)[1], "(") {
 				return e.fail("%s body introduces a definition depending on the bound variable: %s", fname, trunc(d, 120))
+			}
+		}
+		// hoist a pattern annotation of the body to the quantifier
+		if strings.HasPrefix(body, "(=> ") {
+			parts := splitSexp(body[4 : len(body)-1])
+			if len(parts) == 2 && strings.HasPrefix(parts[1], "(! ") {
+				inner := parts[1][3 : len(parts[1])-1]
+				if k := strings.LastIndex(inner, " :pattern "); k > 0 {
+					body = "(! (=> " + parts[0] + " " + inner[:k] + ")" + inner[k:] + ")"
+				}
 			}
 		}
 		return boolVal(sx(fname, "(("+vname+" Int))", body))
